@@ -807,6 +807,10 @@ def _inveigle_case(case):
                 logging.getLogger(None if lname == "root" else lname).log(lvl, msg)
                 if lvl >= cap_level and _filter_ok(case["filter"], lname):
                     want.append("%s:%s:%s" % (logging.getLevelName(lvl), lname, msg))
+            for k in range(int(case.get("many") or 0)):        # a scenario that logs a lot: nothing may be dropped
+                logging.getLogger("c18n").error("many-%d", k)
+                if logging.ERROR >= cap_level and _filter_ok(case["filter"], "c18n"):
+                    want.append("ERROR:c18n:many-%d" % k)
             got = lc.getvalue().split("\n") if lc.getvalue() else []
             if got != want:
                 v.append("captured lines %r, expected %r" % (got, want))
@@ -839,6 +843,9 @@ def _inveigle_cases(tier):
 def run_inveigle(tier, rng):
     for c in _inveigle_cases(tier):
         yield _inveigle_case(c)
+    for many in ((1005, 2500) if tier == "thorough" else (1005,)):
+        yield _inveigle_case({"handlers": [], "root_level": 30, "clear": False, "level": None, "filter": None,
+                              "named_handlers": 0, "many": many})
 
 
 def run_inveigle_lc(tier, rng):
@@ -1025,8 +1032,8 @@ CHECKS = [
         "logcapture-inveigle-abandon",
         bound={"quick": "root handlers in {[], [U1], [U1,U2], [U2,U1]} x root level {0,10,30,50} x clear_handlers "
                         "{off,on} x logging_level {None,40} x filter {None, c18n, -c18n} x {0,1,2} handlers on a named logger; "
-                        "5 records (root/named/other, DEBUG..CRITICAL)",
-               "thorough": "same with logging_level {None,20,40} and filter 'root,other' in addition"},
+                        "5 records (root/named/other, DEBUG..CRITICAL); one case with 1005 further records",
+               "thorough": "same with logging_level {None,20,40} and filter 'root,other' in addition; 1005 and 2500 further records"},
         run=run_inveigle, replay=_inveigle_case,
         contract="inveigle(); emit; abandon(): captured lines == 'LEVEL:name:msg' of the records with level >= "
                  "logging_level passing the filter; after abandon root.handlers (identity, order) and root.level == "
